@@ -51,15 +51,25 @@ def scalar(b):
     return b.int("c") if b.cfg.ck == "int" else b.real("c")
 
 
-@contract(HB + ".__imul__", props=["C06", "C13"], name=HB + ".__imul__[any bin count]")
+@contract(HB + ".__imul__", props=["C06", "C13", "C18"], name=HB + ".__imul__[any bin count]")
 class _imul_u:
     configs = staticmethod(_scal_cfgs)
 
     def inputs(b):
         n = nbins(b)
-        c = scalar(b)
-        b.assume(c >= 0)
+        c = scalar(b)          # any sign: a negative factor is refused as soon as some content is positive
         return dict(self=hist1d_t(b, "h", n, b.cfg.dtype), other=c)
+
+    @raises(ValueError, "negative_factor_on_a_histogram_with_contents_is_refused_and_nothing_but_the_dtype_changes",
+            state=lambda a, old: And(same(Fq(old.self), Fq(a.self)) if dtype_of(Fq(old.self)) == dtype_of(Fq(a.self)) else
+                                     forall(0, count_of(old.self), lambda i: Fq(a.self)[i] == Fq(old.self)[i]),
+                                     forall(0, count_of(old.self), lambda i: Eq(a.self)[i] == Eq(old.self)[i]),
+                                     same(elems(attr(a.self, "_missed")), elems(attr(old.self, "_missed"))),
+                                     dtype_of(Fq(a.self)) == attr(a.self, "_dtype"), dtype_of(Eq(a.self)) == attr(a.self, "_dtype")))
+    def _(o):
+        n = count_of(o.self)
+        f0 = Fq(o.self)
+        return And(o.other < 0, Not(forall(0, n, lambda i: f0[i] == 0)))
 
     @ensures("every_content_times_c_every_squared_error_times_c_squared")
     def _(a, old, result):
